@@ -8,6 +8,8 @@
 //! (VIOLATION line printed after minimisation and a fresh-process replay), 2 harness error.
 
 mod cases;
+#[cfg(feature = "serde-roundtrip")]
+mod ckpt;
 mod exact;
 mod faulty;
 mod free;
@@ -17,6 +19,8 @@ mod oracle;
 mod rng;
 mod runner;
 mod tape;
+#[cfg(feature = "serde-roundtrip")]
+mod wire;
 mod world;
 
 use cases::Case;
@@ -114,8 +118,80 @@ pub fn exec_trace(tr: &Trace, stats: &mut Stats) -> (Vec<Violation>, Reach, Vec<
     match tr.config.as_str() {
         "free" | "trees" | "long" => dispatch_machine!(tr.machine.as_str(), exec_free_generic, tr, stats),
         "fault" => dispatch_machine!(tr.machine.as_str(), exec_fault_generic, tr, stats),
-        other => panic!("config {other} is not executable by this build"),
+        #[cfg(feature = "serde-roundtrip")]
+        "checkpoint" => exec_ckpt(tr, stats),
+        other => panic!("config {other} is not executable by this build (checkpoint traces need the serde-roundtrip feature)"),
     }
+}
+
+#[cfg(feature = "serde-roundtrip")]
+macro_rules! dispatch_ckpt {
+    ($name:expr, $f:ident, $($args:expr),*) => {{
+        use machines::*;
+        match $name {
+            "Arithmetic<f32>" => $f::<MArith<f32>>($($args),*),
+            "Arithmetic<f64>" => $f::<MArith<f64>>($($args),*),
+            "Geometric<f32>" => $f::<MGeo<f32>>($($args),*),
+            "Geometric<f64>" => $f::<MGeo<f64>>($($args),*),
+            "Harmonic<f32>" => $f::<MHarm<f32>>($($args),*),
+            "Harmonic<f64>" => $f::<MHarm<f64>>($($args),*),
+            "Paired<f32>" => $f::<MPaired<f32>>($($args),*),
+            "Paired<f64>" => $f::<MPaired<f64>>($($args),*),
+            "Unpaired<f32>" => $f::<MUnpaired<f32>>($($args),*),
+            "Unpaired<f64>" => $f::<MUnpaired<f64>>($($args),*),
+            "proportion::Stats" => $f::<MProp>($($args),*),
+            other => panic!("machine {other} has no serde support"),
+        }
+    }};
+}
+
+#[cfg(feature = "serde-roundtrip")]
+fn exec_ckpt(tr: &Trace, stats: &mut Stats) -> (Vec<Violation>, Reach, Vec<(String, u64)>) {
+    { use ckpt::exec as ckpt_exec; dispatch_ckpt!(tr.machine.as_str(), ckpt_exec, tr, stats) }
+}
+
+#[cfg(feature = "serde-roundtrip")]
+const C20_MACHINES: [&str; 11] = [
+    "Arithmetic<f32>",
+    "Arithmetic<f64>",
+    "Geometric<f32>",
+    "Geometric<f64>",
+    "Harmonic<f32>",
+    "Harmonic<f64>",
+    "Paired<f32>",
+    "Paired<f64>",
+    "Unpaired<f32>",
+    "Unpaired<f64>",
+    "proportion::Stats",
+];
+
+#[cfg(feature = "serde-roundtrip")]
+fn run_c20(ctx: &Ctx) -> i32 {
+    let thorough = ctx.tier == "thorough";
+    let n: u64 = if thorough { 200_000 } else { 20_000 };
+    let nm = C20_MACHINES.len() as u64;
+    let seed = ctx.seed;
+    let b1: Batch<Art> = runner::run_batch("seeded checkpoint / crash-restore histories with a never-restarted twin", n * nm, false, move |j, stats| {
+        let m = C20_MACHINES[(j % nm) as usize];
+        let run = j / nm;
+        use ckpt::generate as ckpt_generate;
+        let tr: Trace = dispatch_ckpt!(m, ckpt_generate, seed, run);
+        trace_job(tr, (j % nm) as u32, stats, j < nm)
+    });
+    let rule = "one evaluation = one seeded accumulation history (deliveries in every style, merges, forks, empty operands, queries) on a real state and its never-restarted twin, with a chaos task that checkpoints (serialize to an in-memory durable store with the lossless wire encoder or serde_json) at instants biased to land right after merges, forks and first deliveries, and crashes (state discarded, last checkpoint deserialized, deliveries since re-applied); distinct = distinct event-shape sequences; non-trivial = at least one merge and two non-empty deliveries";
+    let assumptions = ["JSON is used only for f64 and integer states (not a lossless carrier for f32 text in general) and only for finite states", "torn / corrupted checkpoints are not injected: C20 promises a lossless round trip of what was written, not corruption detection"];
+    let new = report_all(ctx, &[&b1]);
+    write_partial(ctx, "exploration", &[&b1], new, rule, &assumptions, json!({}), None);
+    if new > 0 {
+        1
+    } else {
+        0
+    }
+}
+#[cfg(not(feature = "serde-roundtrip"))]
+fn run_c20(_ctx: &Ctx) -> i32 {
+    eprintln!("C20's checkpoint configuration needs the serde-roundtrip feature");
+    2
 }
 
 fn exec_art(a: &Art, stats: &mut Stats) -> Vec<Violation> {
@@ -498,6 +574,7 @@ fn main() {
                 "C08" => run_c08(&ctx),
                 "C09" => run_c09(&ctx),
                 "C11" => run_c11(&ctx),
+                "C20" => run_c20(&ctx),
                 other => {
                     eprintln!("property {other} has no Engine A check in this build");
                     2
